@@ -9,12 +9,14 @@
 //!       interface instances: 0 = Sp at /t/a, 1 = Sp at /t/b (task spawning enabled),
 //!                            2 = Ns at /t/c, 3 = Ns at /t/d (`#[interface(spawn = false)]`)
 //!       call   m<k>:<script>  method RunMut (&mut self)        f<k>:<script>  method RunRef (&self)
+//!              m<k>!:<script> / f<k>!:<script>  the same with the NO_REPLY_EXPECTED header flag (no R event expected)
 //!              g<k>  Properties.Get(P)      G<k>  Properties.GetAll  (runs the getters of P and Q)
 //!              s<k>:<script>  Properties.Set(P, script)  (setter takes &mut self)
 //!              t<k>:<script>  Properties.Set(Q, script)  (setter takes &self)
 //!              x<k>  Introspectable.Introspect on the path of k        n  call to an unknown path
 //!       script ops joined by `.`:  y<n> yield n times   z<ms> sleep   e emit a signal
 //!              a<j> object_server().at(j = 0: /x/aux, 1: own path, Dummy)    r<j> remove::<Dummy>
+//!              r2  remove::<Self>(own path): the handler removes the interface it is running on
 //!              i<k> object_server().interface::<_, T>(path of k)
 //!     The whole burst is sent back-to-back on one connection before any reply is awaited; call ids are
 //!     the positions in the burst.
@@ -43,7 +45,7 @@ use std::sync::{mpsc, Arc, Mutex};
 use std::time::Duration;
 
 use futures_util::StreamExt;
-use zbus::message::{Header, Message, Type};
+use zbus::message::{Flags, Header, Message, Type};
 use zbus::object_server::SignalEmitter;
 use zbus::{block_on, connection::Builder, Connection, Guid, MessageStream, ObjectServer};
 
@@ -128,8 +130,17 @@ async fn run_script(ctx: &Ctx, cid: u32, k: usize, script: &str, server: &Object
                 let _ = server.at(p, Dummy).await;
             }
             "r" => {
-                let p = if arg == "1" { PATHS[k] } else { AUX };
-                let _ = server.remove::<Dummy, _>(p).await;
+                if arg == "2" {
+                    // remove the very interface this handler is running on (a self-removing `Close`)
+                    if k < 2 {
+                        let _ = server.remove::<Sp, _>(PATHS[k]).await;
+                    } else {
+                        let _ = server.remove::<Ns, _>(PATHS[k]).await;
+                    }
+                } else {
+                    let p = if arg == "1" { PATHS[k] } else { AUX };
+                    let _ = server.remove::<Dummy, _>(p).await;
+                }
             }
             "i" => {
                 let t = (num(arg) as usize) % 4;
@@ -309,12 +320,28 @@ fn build_call(tok: &str, cid: u32) -> Option<Message> {
     if kind == "n" {
         return Message::method_call("/no/such", "RunRef").ok()?.interface("org.zv.Sp").ok()?.build(&(cid, script)).ok();
     }
+    let (ks, noreply) = match ks.strip_suffix('!') {
+        Some(r) => (r, true),
+        None => (ks, false),
+    };
     let k: usize = ks.parse().ok()?;
-    if k > 3 {
+    if k > 3 || (noreply && kind != "m" && kind != "f") {
         return None;
     }
     let path = PATHS[k];
     let props = "org.freedesktop.DBus.Properties";
+    if noreply {
+        // fire-and-forget: the NO_REPLY_EXPECTED header flag
+        let member = if kind == "m" { "RunMut" } else { "RunRef" };
+        return Message::method_call(path, member)
+            .ok()?
+            .interface(iface_name(k))
+            .ok()?
+            .with_flags(Flags::NoReplyExpected)
+            .ok()?
+            .build(&(cid, script))
+            .ok();
+    }
     match kind {
         "m" => Message::method_call(path, "RunMut").ok()?.interface(iface_name(k)).ok()?.build(&(cid, script)).ok(),
         "f" => Message::method_call(path, "RunRef").ok()?.interface(iface_name(k)).ok()?.build(&(cid, script)).ok(),
@@ -359,16 +386,20 @@ fn client_burst(client: &Connection, ctx: &Arc<Ctx>, toks: &[String], log_send: 
                 return Verdict::Bad;
             }
         }
-        // which calls must be answered
+        // which calls must be answered; a call that carries NO_REPLY_EXPECTED is finished when its handler has
+        // logged its end (or, if its interface was removed meanwhile, when the error reply came)
+        let is_flagged = |t: &String| t.split(':').next().map(|h| h.ends_with('!')).unwrap_or(false);
+        let flagged: Vec<u32> = toks.iter().enumerate().filter(|(_, t)| is_flagged(t)).map(|(i, _)| i as u32).collect();
         let required: Vec<u32> = match grace {
             Some(f) => f(ctx),
-            None => (0..toks.len() as u32).collect(),
+            None => (0..toks.len() as u32).filter(|c| !flagged.contains(c)).collect(),
         };
+        let ended = |c: u32| ctx.log.lock().unwrap().iter().any(|e| *e == format!("E{c}"));
         let mut got: Vec<u32> = Vec::new();
         let deadline = async_io::Timer::after(WATCHDOG);
         futures_util::pin_mut!(deadline);
         loop {
-            if required.iter().all(|c| got.contains(c)) {
+            if required.iter().all(|c| got.contains(c)) && flagged.iter().all(|c| got.contains(c) || ended(*c)) {
                 if got.len() < toks.len() && grace.is_some() {
                     // calls outside the premise may or may not be answered: give them a moment, do not insist
                     let extra = async_io::Timer::after(Duration::from_millis(150));
@@ -391,10 +422,14 @@ fn client_burst(client: &Connection, ctx: &Arc<Ctx>, toks: &[String], log_send: 
             }
             let nx = stream.next();
             futures_util::pin_mut!(nx);
-            match futures_util::future::select(nx, &mut deadline).await {
+            let tick = async_io::Timer::after(Duration::from_millis(3));
+            futures_util::pin_mut!(tick);
+            let wait = futures_util::future::select(tick, &mut deadline);
+            match futures_util::future::select(nx, wait).await {
                 futures_util::future::Either::Left((Some(Ok(m)), _)) => note_reply(ctx, &m, &mut got),
                 futures_util::future::Either::Left((_, _)) => return Verdict::Hang,
-                futures_util::future::Either::Right(_) => return Verdict::Hang,
+                futures_util::future::Either::Right((futures_util::future::Either::Left(_), _)) => {}
+                futures_util::future::Either::Right((futures_util::future::Either::Right(_), _)) => return Verdict::Hang,
             }
         }
     })
